@@ -1353,6 +1353,15 @@ func makeTaskForMesosResources(
 			}
 			// TODO: this can be optimized by excluding the base range outside the loop
 			availPorts = availPorts.Remove(mesos.Value_Range{Begin: 0, End: 8999})
+			if len(availPorts) == 0 {
+				// Satisfy only counts ports: none may be left in the data range of this offer
+				log.WithPrefix("scheduler").
+					WithField("partition", envId.String()).
+					WithField("detector", descriptorDetector).
+					WithField("offerId", offer.ID.Value).
+					Warn("no data port left in offer, cannot place task on it")
+				return nil, nil
+			}
 			port := availPorts.Min()
 			builder := resources.Build().
 				Name(resources.Name("ports")).
@@ -1416,6 +1425,14 @@ func makeTaskForMesosResources(
 	// The control port range starts at 47101
 	// FIXME: make the control ports cutoff configurable
 	availPorts = availPorts.Remove(mesos.Value_Range{Begin: 0, End: 29999})
+	if len(availPorts) == 0 {
+		log.WithPrefix("scheduler").
+			WithField("partition", envId.String()).
+			WithField("detector", descriptorDetector).
+			WithField("offerId", offer.ID.Value).
+			Warn("no control port left in offer, cannot place task on it")
+		return nil, nil
+	}
 	controlPort := availPorts.Min()
 	builder := resources.Build().
 		Name(resources.Name("ports")).
